@@ -1,21 +1,987 @@
-//! Monitor for property C10 (see /verif/DESIGN.md §6).
+//! Monitor for property C10 (see /verif/DESIGN.md §6): the TFM and PL readers are total.
+//!
+//! Oracle = the crash oracle (`vcore::catch` + `obs.repo_panic`) around the two public
+//! conversion entry points, plus the composition claim "whatever PL->TFM returns is accepted by
+//! the TFM reader" (`tfm::File::deserialize(out).0` must be `Ok`). There is no reference model:
+//! the property is a pure totality / closure claim.
+//!
+//! What is executed per input:
+//!   bytes -> `tfm::algorithms::tfm_to_pl`            (must not panic; `Ok(_)`; result or documented error)
+//!         -> every message rendered the way the `tftopl` binary renders it (must not panic)
+//!         -> if a property list came out: that text -> `pl_to_tfm` -> `File::deserialize` (must be Ok)
+//!   text  -> `tfm::algorithms::pl_to_tfm`            (must not panic)
+//!         -> every warning rendered the way the `pltotf` binary renders it (must not panic)
+//!         -> `tfm::File::deserialize(output)`         (must be `Ok`)
+//!         -> the output fed back into `tfm_to_pl`     (must not panic)
+
+pub mod corpus;
+pub mod plmut;
+
+use corpus::corpus;
 use vcore::*;
 
 pub struct M;
 pub static MONITOR: M = M;
 
+// ------------------------------------------------------------------------------------------
+// oracle
+
+fn variant_name<T: std::fmt::Debug>(t: &T) -> String {
+    let s = format!("{t:?}");
+    s.split(|c: char| !(c.is_alphanumeric() || c == '_'))
+        .next()
+        .unwrap_or("")
+        .to_string()
+}
+
+fn hex(b: &[u8]) -> String {
+    let mut s = String::with_capacity(b.len() * 2);
+    for x in b {
+        s.push_str(&format!("{x:02x}"));
+    }
+    s
+}
+
+fn bytes_witness(b: &[u8]) -> Value {
+    if b.len() <= 1024 {
+        json!({"len": b.len(), "hex": hex(b)})
+    } else {
+        json!({"len": b.len(), "first_64_bytes_hex": hex(&b[..64]),
+               "note": "input too long to embed; regenerate with the replay command"})
+    }
+}
+
+fn text_witness(t: &str) -> Value {
+    if t.len() <= 3000 {
+        json!({"len": t.len(), "text": t})
+    } else {
+        let mut k = 600;
+        while !t.is_char_boundary(k) {
+            k -= 1;
+        }
+        json!({"len": t.len(), "head": &t[..k],
+               "note": "input too long to embed; regenerate with the replay command"})
+    }
+}
+
+fn display_format(k: u64) -> tfm::pl::CharDisplayFormat {
+    match k % 3 {
+        0 => tfm::pl::CharDisplayFormat::Default,
+        1 => tfm::pl::CharDisplayFormat::Ascii,
+        _ => tfm::pl::CharDisplayFormat::Octal,
+    }
+}
+
+/// bytes -> tfm_to_pl under the crash oracle. Returns the property list if one was produced.
+/// `how` describes how the input was derived (goes into the witness).
+fn check_tfm(obs: &mut Obs, bytes: &[u8], fmt_k: u64, how: &dyn Fn() -> Value) -> Option<String> {
+    obs.count("tfm_inputs");
+    let fmt = display_format(fmt_k);
+    let r = catch(|| tfm::algorithms::tfm_to_pl(bytes, 3, &|_| fmt));
+    let out = match r {
+        Err(p) => {
+            obs.count("tfm_panics");
+            obs.repo_panic(
+                &p,
+                json!({"direction": "tfm_to_pl", "input": bytes_witness(bytes), "derived": how()}),
+            );
+            return None;
+        }
+        Ok(Err(e)) => {
+            obs.violation(
+                "tfm_to_pl:returned-fmt-error",
+                json!({"error": format!("{e:?}"), "input": bytes_witness(bytes), "derived": how()}),
+            );
+            return None;
+        }
+        Ok(Ok(out)) => out,
+    };
+    // the tftopl binary prints every message; rendering them is part of "returns ... warnings"
+    let r = catch(|| {
+        let mut n = 0usize;
+        for m in &out.error_messages {
+            n += m.tftopl_message().len();
+        }
+        if let Err(e) = &out.pl_data {
+            n += e.tftopl_message().len() + e.tftopl_section();
+        }
+        n
+    });
+    if let Err(p) = r {
+        obs.count("tfm_panics");
+        obs.repo_panic(
+            &p,
+            json!({"direction": "tftopl_message", "input": bytes_witness(bytes), "derived": how()}),
+        );
+    }
+    match out.pl_data {
+        Err(e) => {
+            obs.count(&format!("tfm_err:{}", variant_name(&e)));
+            None
+        }
+        Ok(s) => {
+            if out.error_messages.is_empty() {
+                obs.count("tfm_ok_clean");
+            } else {
+                obs.count("tfm_ok_with_warnings");
+            }
+            Some(s)
+        }
+    }
+}
+
+/// text -> pl_to_tfm under the crash oracle; the output must be accepted by the TFM reader.
+/// Returns the bytes produced.
+fn check_pl(obs: &mut Obs, text: &str, how: &dyn Fn() -> Value) -> Option<Vec<u8>> {
+    obs.count("pl_inputs");
+    let r = catch(|| tfm::algorithms::pl_to_tfm(text));
+    let (bytes, warnings) = match r {
+        Err(p) => {
+            obs.count("pl_panics");
+            obs.repo_panic(
+                &p,
+                json!({"direction": "pl_to_tfm", "input": text_witness(text), "derived": how()}),
+            );
+            return None;
+        }
+        Ok(v) => v,
+    };
+    if warnings.is_empty() {
+        obs.count("pl_ok_clean");
+    } else {
+        obs.count("pl_ok_with_warnings");
+        obs.add("pl_warnings_total", warnings.len() as u64);
+    }
+    // the pltotf binary prints every warning with its context line
+    let r = catch(|| {
+        let mut n = 0usize;
+        for w in &warnings {
+            n += w.pltotf_message(text).len();
+        }
+        n
+    });
+    if let Err(p) = r {
+        obs.count("pl_panics");
+        obs.repo_panic(
+            &p,
+            json!({"direction": "pltotf_message", "input": text_witness(text), "derived": how()}),
+        );
+    }
+    // (4) whatever PL->TFM returns is accepted by the TFM reader
+    let r = catch(|| tfm::File::deserialize(&bytes));
+    match r {
+        Err(p) => {
+            obs.count("pl_panics");
+            obs.repo_panic(
+                &p,
+                json!({"direction": "deserialize(pl_to_tfm(text))", "input": text_witness(text),
+                       "output": bytes_witness(&bytes), "derived": how()}),
+            );
+        }
+        Ok((Err(e), _)) => {
+            obs.count("pl2tfm_output_rejected");
+            obs.violation(
+                format!("pl_to_tfm-output-rejected-by-reader:{}", variant_name(&e)),
+                json!({"reader_error": format!("{e:?}"), "input": text_witness(text),
+                       "output": bytes_witness(&bytes), "derived": how()}),
+            );
+        }
+        Ok((Ok(mut f), dw)) => {
+            obs.count("pl2tfm_output_readable");
+            if !dw.is_empty() {
+                obs.count("pl2tfm_output_reader_warnings");
+            }
+            match catch(|| f.validate_and_fix().len()) {
+                Ok(0) => obs.count("pl2tfm_output_validates_clean"),
+                Ok(_) => obs.count("pl2tfm_output_validation_warnings"),
+                Err(p) => {
+                    obs.count("pl_panics");
+                    obs.repo_panic(
+                        &p,
+                        json!({"direction": "validate(deserialize(pl_to_tfm(text)))",
+                               "input": text_witness(text), "derived": how()}),
+                    );
+                }
+            }
+        }
+    }
+    Some(bytes)
+}
+
+/// Full chain for a byte string: TFM->PL, and if a PL came out, PL->TFM->reader.
+fn chain_from_tfm(obs: &mut Obs, bytes: &[u8], fmt_k: u64, how: &dyn Fn() -> Value) -> bool {
+    if let Some(pl) = check_tfm(obs, bytes, fmt_k, how) {
+        let how2 = || json!({"pl_produced_by_tfm_to_pl_from": how(), "tfm_input": bytes_witness(bytes)});
+        check_pl(obs, &pl, &how2);
+        true
+    } else {
+        false
+    }
+}
+
+/// Full chain for a text: PL->TFM->reader, then the output back through TFM->PL.
+fn chain_from_pl(obs: &mut Obs, text: &str, how: &dyn Fn() -> Value) {
+    if let Some(bytes) = check_pl(obs, text, how) {
+        let how2 = || json!({"tfm_produced_by_pl_to_tfm_from": how(), "pl_input": text_witness(text)});
+        check_tfm(obs, &bytes, text.len() as u64, &how2);
+    }
+}
+
+// ------------------------------------------------------------------------------------------
+// TFM header workloads
+
+const WORD_NAMES: [&str; 12] = ["lf", "lh", "bc", "ec", "nw", "nh", "nd", "ni", "nl", "nk", "ne", "np"];
+
+fn get_word(b: &[u8], w: usize) -> u16 {
+    u16::from_be_bytes([b[2 * w], b[2 * w + 1]])
+}
+fn set_word(b: &mut [u8], w: usize, v: u16) {
+    let [hi, lo] = v.to_be_bytes();
+    b[2 * w] = hi;
+    b[2 * w + 1] = lo;
+}
+
+/// lf as the format defines it, computed in wide arithmetic from the other eleven words.
+fn consistent_lf(b: &[u8]) -> i64 {
+    let g = |w: usize| get_word(b, w) as i16 as i64;
+    6 + g(1) + (g(3) - g(2) + 1) + g(4) + g(5) + g(6) + g(7) + g(8) + g(9) + g(10) + g(11)
+}
+
+/// Short base files (16..64 bytes) into which header words are spliced.
+fn short_templates() -> Vec<(&'static str, Vec<u8>)> {
+    let mut v: Vec<(&'static str, Vec<u8>)> = vec![];
+    for (name, len) in [("zeros16", 16usize), ("zeros20", 20), ("zeros24", 24), ("zeros28", 28), ("zeros64", 64)] {
+        v.push((name, vec![0u8; len]));
+    }
+    // lf = len/4 and nothing else: the shape of the announced 16-byte panic
+    for (name, len) in [("lf-only16", 16usize), ("lf-only20", 20), ("lf-only24", 24), ("lf-only32", 32)] {
+        let mut b = vec![0u8; len];
+        set_word(&mut b, 0, (len / 4) as u16);
+        v.push((name, b));
+    }
+    // the smallest valid font: lh=2, no characters, one (zero) entry in each dimension table
+    let mut min = vec![0u8; 48];
+    for (w, val) in [(0, 12u16), (1, 2), (2, 1), (3, 0), (4, 1), (5, 1), (6, 1), (7, 1)] {
+        set_word(&mut min, w, val);
+    }
+    v.push(("minimal-valid48", min.clone()));
+    // same header but claiming only the 24 header bytes + 1 word
+    let mut short = min.clone();
+    short.truncate(28);
+    set_word(&mut short, 0, 7);
+    v.push(("valid-header-lf7-28", short));
+    // a valid 64-byte font: one character 'A' with a lig program of one instruction, one kern,
+    // one extensible recipe and one parameter
+    let mut f = vec![0u8; 64];
+    for (w, val) in [(0, 16u16), (1, 2), (2, 65), (3, 65), (4, 1), (5, 1), (6, 1), (7, 1), (8, 1), (9, 1), (10, 1), (11, 1)] {
+        set_word(&mut f, w, val);
+    }
+    f[24 + 8] = 0; // char_info: width index 0 (absent), tag below
+    f[24 + 8 + 2] = 1; // lig tag
+    f[24 + 8 + 3] = 0;
+    // lig/kern instruction: stop, next char 'A', kern 0
+    f[24 + 8 + 4 + 16] = 128;
+    f[24 + 8 + 4 + 17] = 65;
+    f[24 + 8 + 4 + 18] = 128;
+    v.push(("one-char-all-tables64", f));
+    // 0xFF filler: every word negative
+    v.push(("ff32", vec![0xFFu8; 32]));
+    v
+}
+
+fn stride_values(tier: Tier, k: u64) -> Vec<u16> {
+    match tier {
+        Tier::Thorough => (0..=65535u16).collect(),
+        Tier::Quick => {
+            // every 17th value (phase shifted per case) plus the boundaries of every check
+            let mut v: Vec<u16> = (0..65536u32)
+                .filter(|x| (x + k as u32) % 17 == 0)
+                .map(|x| x as u16)
+                .collect();
+            for b in [0u32, 1, 2, 3, 4, 5, 6, 7, 8, 11, 12, 13, 16, 17, 18, 19, 24, 127, 128, 254, 255, 256, 257, 511, 512,
+                1023, 1024, 4095, 4096, 8191, 8192, 16383, 16384, 32000, 32766, 32767, 32768, 32769, 65280, 65534, 65535]
+            {
+                v.push(b as u16);
+            }
+            v.sort_unstable();
+            v.dedup();
+            v
+        }
+    }
+}
+
+// ------------------------------------------------------------------------------------------
+// fixed reproducers for listed findings (phase "known")
+
+fn known_cases() -> Vec<(&'static str, KnownInput)> {
+    let mut v: Vec<(&'static str, KnownInput)> = vec![];
+    // 1. 16-byte file with lf=4: passes the length checks, then `.get(0..24).expect(..)`
+    let mut b = vec![0u8; 16];
+    set_word(&mut b, 0, 4);
+    v.push(("lf4-16-bytes", KnownInput::Tfm(b)));
+    // 2. sub-file sizes summing past 2^15: i16 overflow in SubFileSizes::valid_lf
+    let mut b = vec![0u8; 28];
+    for (w, val) in [(0, 7u16), (1, 2), (2, 1), (3, 0), (4, 32767), (5, 1), (6, 1), (7, 1)] {
+        set_word(&mut b, w, val);
+    }
+    v.push(("sizes-sum-past-2^15", KnownInput::Tfm(b)));
+    // 3. LIGTABLE labels a character below the first CHARACTER
+    v.push((
+        "label-below-first-character",
+        KnownInput::Pl("(LIGTABLE (LABEL C A) (KRN C B R 0.1) (STOP))\n(CHARACTER C B (CHARWD R 1.0))\n".into()),
+    ));
+    v
+}
+
+enum KnownInput {
+    Tfm(Vec<u8>),
+    Pl(String),
+}
+
+// ------------------------------------------------------------------------------------------
+// phases
+
+const SHIFT_DELTAS: [i32; 14] = [1, -1, 2, -2, 3, -3, 5, -5, 17, -17, 100, -100, 255, -255];
+
+fn mut_slots(tier: Tier, len: usize) -> usize {
+    // number of mutated positions per corpus font (cost of one conversion grows with the file)
+    let cap = match tier {
+        Tier::Quick => 1200,
+        Tier::Thorough => 16000,
+    };
+    len.min(cap)
+}
+
+const NEST_DEPTHS_QUICK: [usize; 6] = [1, 10, 100, 1000, 10_000, 30_000];
+const NEST_DEPTHS_THOROUGH: [usize; 9] = [1, 10, 100, 1000, 10_000, 30_000, 100_000, 300_000, 1_000_000];
+const NEST_SHAPES: usize = 8;
+
+fn nest_text(shape: usize, depth: usize) -> (String, &'static str) {
+    let mut s = String::new();
+    match shape {
+        0 => {
+            for _ in 0..depth {
+                s.push('(');
+            }
+            (s, "open-only")
+        }
+        1 => {
+            for _ in 0..depth {
+                s.push(')');
+            }
+            (s, "close-only")
+        }
+        2 => {
+            for _ in 0..depth {
+                s.push_str("(A ");
+            }
+            for _ in 0..depth {
+                s.push(')');
+            }
+            (s, "balanced-unknown-names")
+        }
+        3 => {
+            s.push_str("(COMMENT ");
+            for _ in 0..depth {
+                s.push('(');
+            }
+            s.push_str("x");
+            for _ in 0..depth {
+                s.push(')');
+            }
+            s.push(')');
+            (s, "balanced-inside-comment")
+        }
+        4 => {
+            s.push_str("(COMMENT ");
+            for _ in 0..depth {
+                s.push('(');
+            }
+            (s, "open-only-inside-comment")
+        }
+        5 => {
+            s.push_str("(CHARACTER C A (VARCHAR (TOP ");
+            for _ in 0..depth {
+                s.push_str("(REP C A ");
+            }
+            for _ in 0..depth {
+                s.push(')');
+            }
+            s.push_str(")))");
+            (s, "balanced-inside-varchar")
+        }
+        6 => {
+            for _ in 0..depth {
+                s.push_str("(CHARACTER C A ");
+            }
+            for _ in 0..depth {
+                s.push(')');
+            }
+            (s, "nested-character-lists")
+        }
+        _ => {
+            for _ in 0..depth {
+                s.push_str("(LIGTABLE (LABEL C A)");
+            }
+            (s, "nested-ligtables-unclosed")
+        }
+    }
+}
+
 impl Monitor for M {
     fn id(&self) -> &'static str {
         "C10"
     }
+
     fn rule(&self) -> String {
-        "not built yet".into()
+        "Inputs: (hdr-short) each of the twelve 16-bit header words set to every value (quick: every 17th + boundaries) \
+         in short base files of 16..64 bytes, raw and with lf re-made consistent; (hdr-rand) all twelve words drawn from a \
+         hostile distribution; (hdr-corpus) the same splice into every corpus font; (hdr-shift) two size words moved in \
+         opposite directions so that the total stays consistent and the tables shift; (trunc) every prefix of every corpus \
+         font, raw and with lf patched; (mut1/mut2) single and double byte mutations of every corpus font; (pl-corpus) \
+         every corpus property list, plain, with other line endings, lower-cased and cut at 40 points; (pl-mut) 1-4 \
+         token-level mutations of a corpus property list (drop/duplicate/swap/move lists, malformed and out-of-range \
+         numbers in every radix, labels for undeclared characters, LIGTABLE first / no CHARACTER, hostile extra \
+         properties, grafts, parenthesis edits); (pl-gen) small property lists drawn from the whole grammar with hostile \
+         values; (pl-big) structured lists that stress table sizes; (pl-nest) nesting up to 10^4 (quick) / 10^6 \
+         (thorough) levels. A case is non-trivial if the code under test was called on it; distinct = hash of the \
+         input bytes/text (enumerated header splices are distinct by construction)."
+            .into()
     }
+
     fn assumptions(&self) -> Vec<String> {
-        vec![]
+        vec![
+            "\"documented error\" = any value of tfm::DeserializationError returned in TfmToPlOutput.pl_data; an Err(fmt::Error) from tfm_to_pl would be a violation".into(),
+            "rendering messages (TfmToPlErrorMessage::tftopl_message, DeserializationError::tftopl_message, ParseWarning::pltotf_message) is executed under the same crash oracle because the tftopl/pltotf binaries (anchors of the property) do exactly that with every returned warning".into(),
+            "\"accepted by the TFM reader\" = tfm::File::deserialize(out).0 is Ok; reader/validation warnings on PL->TFM output are counted, not failed".into(),
+            "cases run on a 1 GiB stack (runner default); behaviour of deep nesting on the default 8 MiB stack is probed separately and reported in NOTES.md".into(),
+            "property lists are valid UTF-8 (pl_to_tfm takes &str; the binary refuses other files before the library is reached)".into(),
+        ]
     }
-    fn phases(&self, _tier: Tier) -> Vec<Phase> {
-        vec![]
+
+    fn phases(&self, tier: Tier) -> Vec<Phase> {
+        let c = corpus();
+        let nt = c.tfm.len().max(1) as u64;
+        let np = c.pl.len().max(1) as u64;
+        let ntempl = short_templates().len() as u64;
+        let total_len: u64 = c.tfm.iter().map(|(_, b)| b.len() as u64).sum();
+        let total_slots: u64 = c.tfm.iter().map(|(_, b)| mut_slots(tier, b.len()) as u64).sum();
+        let nest = match tier {
+            Tier::Quick => NEST_DEPTHS_QUICK.len(),
+            Tier::Thorough => NEST_DEPTHS_THOROUGH.len(),
+        } as u64;
+        let mut v = vec![
+            Phase::new("known", known_cases().len() as u64).batch(1),
+            Phase::new("hdr-short", ntempl * 12 * 2).batch(1),
+            Phase::new("hdr-rand", tier.pick(150_000, 6_000_000)).batch(2048),
+            Phase::new("hdr-corpus", nt * 12).batch(1),
+            Phase::new("hdr-shift", nt * 110 * SHIFT_DELTAS.len() as u64).batch(64),
+            Phase::new("trunc", total_len.div_ceil(512)).batch(8),
+            Phase::new("mut1", total_slots.max(1)).batch(32),
+            Phase::new("mut2", tier.pick(30_000, 1_500_000)).batch(64),
+            Phase::new("pl-corpus", np * 44).batch(4),
+            Phase::new("pl-mut", tier.pick(25_000, 1_200_000)).batch(16),
+            Phase::new("pl-gen", tier.pick(250_000, 12_000_000)).batch(512),
+            Phase::new("pl-big", tier.pick(600, 20_000)).batch(2),
+            Phase::new("pl-nest", nest * NEST_SHAPES as u64).batch(1),
+        ];
+        if tier == Tier::Thorough {
+            v[1] = v[1].clone().exhaustive("all 2^16 values of each of the 12 header words x short base files x {raw, lf made consistent}");
+            v[3] = v[3].clone().exhaustive("all 2^16 values of each of the 12 header words x every corpus font");
+        }
+        v
     }
-    fn run_case(&self, _phase: &str, _idx: u64, _rng: &mut Rng, _obs: &mut Obs) {}
+
+    fn floors(&self, tier: Tier) -> Vec<(&'static str, u64)> {
+        let q = tier == Tier::Quick;
+        vec![
+            ("tfm_inputs", if q { 1_000_000 } else { 40_000_000 }),
+            ("pl_inputs", if q { 300_000 } else { 10_000_000 }),
+            ("tfm_ok_clean", 1_000),
+            ("tfm_ok_with_warnings", 10_000),
+            ("tfm_err:InternalFileLengthIsTooBig", 1_000),
+            ("tfm_err:InternalFileLengthIsTooSmall", 10),
+            ("tfm_err:SubFileSizeIsNegative", 1_000),
+            ("tfm_err:HeaderLengthIsTooSmall", 10),
+            ("tfm_err:InvalidCharacterRange", 100),
+            ("tfm_err:IncompleteSubFiles", 10),
+            ("tfm_err:TooManyExtensibleCharacters", 10),
+            ("tfm_err:InconsistentSubFileSizes", 1_000),
+            ("pl_ok_clean", 1_000),
+            ("pl_ok_with_warnings", 10_000),
+            ("pl2tfm_output_readable", 100_000),
+            ("hdr_short_cases", 200),
+            ("hdr_corpus_cases", 1_000),
+            ("hdr_shift_parsed", 1_000),
+            ("trunc_inputs", 100_000),
+            ("mut1_inputs", 100_000),
+            ("pl_mut_cases", if q { 20_000 } else { 1_000_000 }),
+            ("pl_mut:number", 1_000),
+            ("pl_mut:drop", 1_000),
+            ("pl_mut:duplicate", 1_000),
+            ("pl_mut:label-undeclared", 500),
+            ("pl_mut:ligtable-first", 500),
+            ("pl_mut:drop-characters", 500),
+            ("pl_mut:del-paren", 500),
+            ("pl_nest_cases", 40),
+            ("pl_nest_depth>=10000", 8),
+            ("corpus_tfm_files", 90),
+            ("corpus_pl_files", 95),
+        ]
+    }
+
+    fn calibrate(&self, obs: &mut Obs) {
+        // No reference model to calibrate. Check that the corpus is where we expect it and that
+        // the harness reaches the real code: the recorded goldens must convert without panic.
+        let c = corpus();
+        for p in &c.problems {
+            obs.inconclusive(format!("corpus file unreadable: {p}"));
+        }
+        obs.add("corpus_tfm_files", c.tfm.len() as u64);
+        obs.add("corpus_pl_files", c.pl.len() as u64);
+        if c.tfm.len() < 90 || c.pl.len() < 95 {
+            obs.inconclusive(format!(
+                "corpus not found or incomplete under {} ({} tfm, {} pl)",
+                c.root.display(),
+                c.tfm.len(),
+                c.pl.len()
+            ));
+        }
+    }
+
+    fn watchdog_s(&self, tier: Tier) -> u64 {
+        match tier {
+            Tier::Quick => 900,
+            Tier::Thorough => 3 * 3600,
+        }
+    }
+
+    fn run_case(&self, phase: &str, idx: u64, rng: &mut Rng, obs: &mut Obs) {
+        // wall time per phase is recorded as an observation only (it sizes the tiers); nothing
+        // that is generated or decided depends on it
+        let t0 = std::time::Instant::now();
+        self.run_case_inner(phase, idx, rng, obs);
+        obs.add(&format!("cpu_us:{phase}"), t0.elapsed().as_micros() as u64);
+    }
+}
+
+impl M {
+    fn run_case_inner(&self, phase: &str, idx: u64, rng: &mut Rng, obs: &mut Obs) {
+        let c = corpus();
+        if idx == 0 {
+            // make the corpus size visible in the run's own counters (floors are checked on these)
+            if phase == "known" {
+                obs.add("corpus_tfm_files", c.tfm.len() as u64);
+                obs.add("corpus_pl_files", c.pl.len() as u64);
+            }
+        }
+        match phase {
+            "known" => {
+                let cases = known_cases();
+                let (name, input) = &cases[idx as usize];
+                let how = || json!({"fixed_reproducer": name});
+                obs.nontrivial(&("known", *name));
+                match input {
+                    KnownInput::Tfm(b) => {
+                        chain_from_tfm(obs, b, 0, &how);
+                    }
+                    KnownInput::Pl(t) => chain_from_pl(obs, t, &how),
+                }
+                if obs.wants_sample() {
+                    obs.sample(json!({"fixed_reproducer": name}));
+                }
+            }
+            "hdr-short" => {
+                let templ = short_templates();
+                let t = (idx / 24) as usize;
+                let w = ((idx / 2) % 12) as usize;
+                let consistent = idx % 2 == 1;
+                let (tname, base) = &templ[t];
+                let values = stride_values(obs.tier, idx);
+                obs.count("hdr_short_cases");
+                let mut n = 0u64;
+                for &v in &values {
+                    let mut b = base.clone();
+                    if b.len() < 2 * w + 2 {
+                        b.resize(2 * w + 2, 0);
+                    }
+                    set_word(&mut b, w, v);
+                    if consistent && b.len() >= 24 && w != 0 {
+                        // make lf agree with the other words (mod 2^16) and give the file the
+                        // claimed length when that stays small; otherwise keep the short file
+                        let lf = consistent_lf(&b);
+                        set_word(&mut b, 0, lf as u16);
+                        if (1..=64).contains(&lf) {
+                            b.resize((lf as usize) * 4, 0);
+                        }
+                    } else if consistent && w == 0 {
+                        // lf itself: give the file exactly the claimed length when small
+                        let lf = v as i16 as i64;
+                        if (1..=64).contains(&lf) {
+                            b.resize((lf as usize) * 4, 0);
+                        }
+                    }
+                    let how = || json!({"template": tname, "word": WORD_NAMES[w], "value": v, "lf_made_consistent": consistent});
+                    chain_from_tfm(obs, &b, v as u64, &how);
+                    n += 1;
+                }
+                obs.nontrivial_by_construction(n);
+                if obs.wants_sample() {
+                    obs.sample(json!({"template": tname, "word": WORD_NAMES[w], "lf_made_consistent": consistent, "values_tried": n}));
+                }
+            }
+            "hdr-rand" => {
+                const HOSTILE: [u16; 24] = [0, 1, 2, 3, 4, 6, 7, 12, 16, 17, 18, 64, 127, 128, 255, 256, 257, 1000, 8191, 16384, 32767, 32768, 65535, 65280];
+                let len = *rng.pick(&[16usize, 20, 24, 28, 32, 40, 48, 64, 96, 128, 256]);
+                let mut b = vec![0u8; len];
+                if rng.chance(1, 3) {
+                    for x in b.iter_mut() {
+                        *x = rng.next_u32() as u8;
+                    }
+                }
+                let nwords = (len / 2).min(12);
+                for w in 0..nwords {
+                    let v = match rng.below(10) {
+                        0..=4 => *rng.pick(&HOSTILE),
+                        5..=7 => rng.below(8) as u16,
+                        8 => rng.below(300) as u16,
+                        _ => rng.next_u32() as u16,
+                    };
+                    set_word(&mut b, w, v);
+                }
+                let mode = rng.below(4);
+                if b.len() >= 24 && mode >= 1 {
+                    let lf = consistent_lf(&b);
+                    set_word(&mut b, 0, lf as u16);
+                    if mode >= 2 && (1..=2048).contains(&lf) {
+                        let old = b.len();
+                        b.resize((lf as usize) * 4, 0);
+                        if mode == 3 {
+                            for x in b.iter_mut().skip(old.min(24)) {
+                                *x = rng.next_u32() as u8;
+                            }
+                        }
+                    }
+                }
+                obs.nontrivial(&b);
+                let how = || json!({"random_header": true, "mode": mode});
+                chain_from_tfm(obs, &b, idx, &how);
+                if obs.wants_sample() {
+                    obs.sample(json!({"random_header_hex": hex(&b[..b.len().min(24)]), "len": b.len()}));
+                }
+            }
+            "hdr-corpus" => {
+                if c.tfm.is_empty() {
+                    obs.inconclusive("no corpus fonts");
+                    return;
+                }
+                let f = (idx / 12) as usize % c.tfm.len();
+                let w = (idx % 12) as usize;
+                let (name, base) = &c.tfm[f];
+                if base.len() < 24 {
+                    obs.skip("corpus-font-shorter-than-24-bytes");
+                    return;
+                }
+                obs.count("hdr_corpus_cases");
+                let mut b = base.clone();
+                let orig = get_word(&b, w);
+                let values = stride_values(obs.tier, idx);
+                let mut n = 0u64;
+                for &v in &values {
+                    set_word(&mut b, w, v);
+                    let how = || json!({"corpus_font": name, "word": WORD_NAMES[w], "value": v, "original": orig});
+                    chain_from_tfm(obs, &b, v as u64, &how);
+                    n += 1;
+                }
+                obs.nontrivial_by_construction(n);
+                if obs.wants_sample() {
+                    obs.sample(json!({"corpus_font": name, "word": WORD_NAMES[w], "values_tried": n}));
+                }
+            }
+            "hdr-shift" => {
+                if c.tfm.is_empty() {
+                    obs.inconclusive("no corpus fonts");
+                    return;
+                }
+                let nd = SHIFT_DELTAS.len() as u64;
+                let d = SHIFT_DELTAS[(idx % nd) as usize];
+                let pair = (idx / nd) % 110;
+                let f = ((idx / nd / 110) as usize) % c.tfm.len();
+                // ordered pair (x, y) of distinct words among 1..=11
+                let x = 1 + (pair / 10) as usize;
+                let mut y = 1 + (pair % 10) as usize;
+                if y >= x {
+                    y += 1;
+                }
+                let (name, base) = &c.tfm[f];
+                if base.len() < 24 {
+                    obs.skip("corpus-font-shorter-than-24-bytes");
+                    return;
+                }
+                let mut b = base.clone();
+                // bc enters the total negatively
+                let sx = if x == 2 { -1 } else { 1 };
+                let sy = if y == 2 { -1 } else { 1 };
+                let vx = get_word(&b, x) as i16 as i32 + sx * d;
+                let vy = get_word(&b, y) as i16 as i32 - sy * d;
+                set_word(&mut b, x, vx as u16);
+                set_word(&mut b, y, vy as u16);
+                obs.nontrivial(&(f, x, y, d));
+                let how = || json!({"corpus_font": name, "shift": {"word_up": WORD_NAMES[x], "word_down": WORD_NAMES[y], "delta": d}});
+                if chain_from_tfm(obs, &b, idx, &how) {
+                    obs.count("hdr_shift_parsed");
+                }
+                if obs.wants_sample() {
+                    obs.sample(how());
+                }
+            }
+            "trunc" => {
+                // idx enumerates 512-byte chunks of the concatenation of all corpus fonts
+                let mut lo = idx * 512;
+                let mut file = None;
+                for (i, (_, b)) in c.tfm.iter().enumerate() {
+                    if lo < b.len() as u64 {
+                        file = Some(i);
+                        break;
+                    }
+                    lo -= b.len() as u64;
+                }
+                let Some(f) = file else {
+                    obs.skip("trunc-chunk-past-corpus-end");
+                    return;
+                };
+                let (name, base) = &c.tfm[f];
+                let hi = ((lo as usize) + 512).min(base.len());
+                let mut n = 0u64;
+                for len in (lo as usize)..hi {
+                    let t = &base[..len];
+                    let how = || json!({"corpus_font": name, "truncated_to": len});
+                    chain_from_tfm(obs, t, len as u64, &how);
+                    n += 1;
+                    if len >= 2 {
+                        // same prefix, lf patched to the words actually present
+                        let mut p = t.to_vec();
+                        set_word(&mut p, 0, (len / 4) as u16);
+                        let how = || json!({"corpus_font": name, "truncated_to": len, "lf_patched_to": len / 4});
+                        chain_from_tfm(obs, &p, len as u64, &how);
+                        n += 1;
+                    }
+                }
+                obs.add("trunc_inputs", n);
+                obs.nontrivial_by_construction(n);
+                if obs.wants_sample() {
+                    obs.sample(json!({"corpus_font": name, "prefix_lengths": [lo, hi]}));
+                }
+            }
+            "mut1" => {
+                // idx enumerates mutation slots font by font
+                let mut k = idx as usize;
+                let mut file = None;
+                for (i, (_, b)) in c.tfm.iter().enumerate() {
+                    let s = mut_slots(obs.tier, b.len());
+                    if k < s {
+                        file = Some((i, s));
+                        break;
+                    }
+                    k -= s;
+                }
+                let Some((f, slots)) = file else {
+                    obs.skip("mut1-slot-past-corpus-end");
+                    return;
+                };
+                let (name, base) = &c.tfm[f];
+                // slot -> position: all positions if the file is small, else the first 512 bytes
+                // (header, start of char_info) exactly and the rest evenly spread with jitter
+                let pos = if slots == base.len() {
+                    k
+                } else if k < 512 {
+                    k
+                } else {
+                    let rest = base.len() - 512;
+                    let step = rest as f64 / (slots - 512) as f64;
+                    let p = 512 + ((k - 512) as f64 * step) as usize + rng.usize_below(step.max(1.0) as usize);
+                    p.min(base.len() - 1)
+                };
+                let orig = base[pos];
+                let nvals = match obs.tier {
+                    Tier::Quick => 4,
+                    Tier::Thorough => 10,
+                };
+                let mut vals: Vec<u8> = vec![orig.wrapping_add(1), orig.wrapping_sub(1), orig ^ 0x80, 255 - orig];
+                for _ in 0..nvals {
+                    vals.push(match rng.below(4) {
+                        0 => *rng.pick(&[0u8, 1, 2, 3, 127, 128, 129, 254, 255]),
+                        _ => rng.next_u32() as u8,
+                    });
+                }
+                vals.sort_unstable();
+                vals.dedup();
+                vals.retain(|v| *v != orig);
+                let mut b = base.clone();
+                for &v in &vals {
+                    b[pos] = v;
+                    let how = || json!({"corpus_font": name, "byte": pos, "from": orig, "to": v});
+                    chain_from_tfm(obs, &b, pos as u64 + v as u64, &how);
+                    obs.nontrivial(&(f, pos, v));
+                }
+                obs.add("mut1_inputs", vals.len() as u64);
+                if obs.wants_sample() {
+                    obs.sample(json!({"corpus_font": name, "byte": pos, "from": orig, "to": vals}));
+                }
+            }
+            "mut2" => {
+                if c.tfm.is_empty() {
+                    obs.inconclusive("no corpus fonts");
+                    return;
+                }
+                // prefer small fonts (cost), but visit all
+                let f = loop {
+                    let f = rng.usize_below(c.tfm.len());
+                    if c.tfm[f].1.len() < 12_000 || rng.chance(1, 40) {
+                        break f;
+                    }
+                };
+                let (name, base) = &c.tfm[f];
+                if base.is_empty() {
+                    obs.skip("empty-corpus-font");
+                    return;
+                }
+                let mut b = base.clone();
+                let p1 = if rng.coin() { rng.usize_below(b.len().min(64)) } else { rng.usize_below(b.len()) };
+                let p2 = if rng.coin() {
+                    (p1 + 1 + rng.usize_below(8)).min(b.len() - 1)
+                } else {
+                    rng.usize_below(b.len())
+                };
+                let v1 = rng.next_u32() as u8;
+                let v2 = if rng.coin() { rng.next_u32() as u8 } else { *rng.pick(&[0u8, 1, 127, 128, 255]) };
+                b[p1] = v1;
+                b[p2] = v2;
+                if rng.chance(1, 5) {
+                    // and repair lf so that a size edit survives the consistency check
+                    let lf = consistent_lf(&b);
+                    if (1..=32767).contains(&lf) && (lf as usize) * 4 <= b.len() {
+                        set_word(&mut b, 0, lf as u16);
+                    }
+                }
+                obs.nontrivial(&(f, p1, v1, p2, v2));
+                let how = || json!({"corpus_font": name, "bytes": [[p1, v1], [p2, v2]]});
+                chain_from_tfm(obs, &b, idx, &how);
+                if obs.wants_sample() {
+                    obs.sample(how());
+                }
+            }
+            "pl-corpus" => {
+                if c.pl.is_empty() {
+                    obs.inconclusive("no corpus property lists");
+                    return;
+                }
+                let f = (idx / 44) as usize % c.pl.len();
+                let variant = idx % 44;
+                let (name, base) = &c.pl[f];
+                let text: String = match variant {
+                    0 => base.clone(),
+                    1 => base.replace('\n', "\r\n"),
+                    2 => base.to_ascii_lowercase(),
+                    3 => base.replace('\n', " "),
+                    k => {
+                        // cut at one of 40 evenly spaced points
+                        let mut cut = base.len() * (k as usize - 3) / 41;
+                        while !base.is_char_boundary(cut) {
+                            cut -= 1;
+                        }
+                        base[..cut].to_string()
+                    }
+                };
+                obs.nontrivial(&(f, variant));
+                let how = || json!({"corpus_pl": name, "variant": variant});
+                chain_from_pl(obs, &text, &how);
+                if obs.wants_sample() {
+                    obs.sample(how());
+                }
+            }
+            "pl-mut" => {
+                if c.pl.is_empty() {
+                    obs.inconclusive("no corpus property lists");
+                    return;
+                }
+                // small files more often (cost), every file regularly
+                let f = if rng.chance(1, 3) {
+                    (idx as usize) % c.pl.len()
+                } else {
+                    loop {
+                        let f = rng.usize_below(c.pl.len());
+                        if c.pl[f].1.len() < 40_000 || rng.chance(1, 20) {
+                            break f;
+                        }
+                    }
+                };
+                let d = rng.usize_below(c.pl.len());
+                let (name, base) = &c.pl[f];
+                let mut tree = plmut::parse(base);
+                let donor = if c.pl[d].1.len() < 60_000 { plmut::parse(&c.pl[d].1) } else { vec![] };
+                let mut log: plmut::Log = vec![];
+                let n_tree = rng.range_usize(0, 3);
+                for _ in 0..n_tree {
+                    plmut::mutate_tree(rng, &mut tree, &donor, &mut log);
+                }
+                let mut text = String::new();
+                plmut::render(&tree, &mut text);
+                let n_text = if n_tree == 0 { rng.range_usize(1, 2) } else { rng.range_usize(0, 1) };
+                for _ in 0..n_text {
+                    plmut::mutate_text(rng, &mut text, &mut log);
+                }
+                obs.count("pl_mut_cases");
+                for l in &log {
+                    obs.count(&format!("pl_mut:{l}"));
+                }
+                obs.nontrivial(&text);
+                let how = || json!({"corpus_pl": name, "mutations": log});
+                chain_from_pl(obs, &text, &how);
+                if obs.wants_sample() {
+                    obs.sample(how());
+                }
+            }
+            "pl-gen" => {
+                let text = plmut::gen_pl(rng);
+                obs.nontrivial(&text);
+                let how = || json!({"generated": "grammar"});
+                chain_from_pl(obs, &text, &how);
+                if obs.wants_sample() {
+                    obs.sample(json!({"generated": text_witness(&text)}));
+                }
+            }
+            "pl-big" => {
+                let (text, kind) = plmut::gen_big_pl(rng, idx);
+                obs.count(&format!("pl_big:{kind}"));
+                obs.nontrivial(&text);
+                let how = || json!({"generated": kind});
+                chain_from_pl(obs, &text, &how);
+                if obs.wants_sample() {
+                    obs.sample(json!({"generated": kind, "len": text.len()}));
+                }
+            }
+            "pl-nest" => {
+                let shape = (idx as usize) % NEST_SHAPES;
+                let di = (idx as usize) / NEST_SHAPES;
+                let depth = match obs.tier {
+                    Tier::Quick => NEST_DEPTHS_QUICK[di.min(NEST_DEPTHS_QUICK.len() - 1)],
+                    Tier::Thorough => NEST_DEPTHS_THOROUGH[di.min(NEST_DEPTHS_THOROUGH.len() - 1)],
+                };
+                let (text, sname) = nest_text(shape, depth);
+                obs.count("pl_nest_cases");
+                if depth >= 10_000 {
+                    obs.count("pl_nest_depth>=10000");
+                }
+                obs.nontrivial(&(shape, depth));
+                let how = || json!({"nesting_shape": sname, "depth": depth});
+                chain_from_pl(obs, &text, &how);
+                if obs.wants_sample() {
+                    obs.sample(how());
+                }
+            }
+            other => obs.inconclusive(format!("unknown phase {other}")),
+        }
+    }
+
 }
